@@ -365,7 +365,8 @@ def run_judge(rundir, module, fn, cases, shard=None, timeout=1500, name="j"):
         cur_n += len(t)
     if cur:
         shards.append(cur)
-    for si, sh_cases in enumerate(shards):
+    def one(arg):
+        si, sh_cases = arg
         d = os.path.join(rundir, "%s%d" % (name, si))
         os.makedirs(d, exist_ok=True)
         flat = [x for t in sh_cases for x in t]
@@ -391,6 +392,17 @@ def run_judge(rundir, module, fn, cases, shard=None, timeout=1500, name="j"):
         vals = [int(x) for x in re.findall(r"-?\d+", m.group(1).replace("%Z", ""))]
         if len(vals) != len(sh_cases):
             raise RuntimeError("judge returned %d results for %d cases" % (len(vals), len(sh_cases)))
+        return vals
+
+    # shards are independent coqc runs: several at a time (each holds its data array and the result in memory)
+    workers = max(1, min(len(shards), int(os.environ.get("VERIF_JOBS", "6"))))
+    if workers == 1:
+        parts = [one(a) for a in enumerate(shards)]
+    else:
+        from concurrent.futures import ThreadPoolExecutor
+        with ThreadPoolExecutor(max_workers=workers) as ex:
+            parts = list(ex.map(one, enumerate(shards)))
+    for vals in parts:
         results.extend(vals)
     return results
 
